@@ -2,6 +2,7 @@ import Oracle.Util
 import Oracle.C12
 import MobiusModel.Presence
 import MobiusModel.PresenceAbort
+import MobiusModel.PresenceTeardown
 /-! Oracle handlers for C13 (model functions exposed on the line protocol). -/
 namespace Oracle
 open Mobius
@@ -43,6 +44,26 @@ def parsePresReqs : List String → List PresReq
   | "IM" :: a :: r :: t :: m :: q :: rest => .ok (.sendIM (num a) (num r) (num t) (hexb m) (optHex q)) :: parsePresReqs rest
   | _ => []
 
+/-- Wave e: the same tokens plus `DT actor ok|err` — a session that ends with the given outcome of `Connection.Close()`. -/
+def parsePresReqsT : List String → List PresReqT
+  | "DT" :: a :: cr :: rest => .teardown (num a) (if cr == "err" then .err else .ok) :: parsePresReqsT rest
+  | "UA" :: a :: nm :: ic :: rest => .base (.setInfoAbort (num a) (optHex nm) (optHex ic)) :: parsePresReqsT rest
+  | "AA" :: a :: nm :: ic :: rest => .base (.agreedAbort (num a) (optHex nm) (optHex ic)) :: parsePresReqsT rest
+  | "CR" :: a :: rest => .base (.crash (num a)) :: parsePresReqsT rest
+  | "C" :: l :: an :: ac :: ic :: rest => .base (.ok (.connect (hexb l) (hexb an) (hexb ac) (hexb ic))) :: parsePresReqsT rest
+  | "LN" :: l :: an :: ac :: nm :: ic :: rest => .base (.ok (.loginNamed (hexb l) (hexb an) (hexb ac) (hexb nm) (hexb ic))) :: parsePresReqsT rest
+  | "A" :: a :: r :: nm :: ic :: o :: au :: rest =>
+    .base (.ok (.agreed (num a) (num r) (optHex nm) (optHex ic) (num o) (optHex au))) :: parsePresReqsT rest
+  | "U" :: a :: r :: nm :: ic :: o :: au :: rest =>
+    .base (.ok (.setInfo (num a) (num r) (optHex nm) (optHex ic) (optNumN o) (optHex au))) :: parsePresReqsT rest
+  | "SU" :: a :: r :: l :: f :: ac :: rest => .base (.ok (.setUser (num a) (num r) (hexb l) (f == "1") (hexb ac))) :: parsePresReqsT rest
+  | "D" :: a :: rest => .base (.ok (.disconnect (num a))) :: parsePresReqsT rest
+  | "F" :: a :: r :: rest => .base (.ok (.fetch (num a) (num r))) :: parsePresReqsT rest
+  | "AW" :: a :: rest => .base (.ok (.away (num a))) :: parsePresReqsT rest
+  | "WK" :: a :: rest => .base (.ok (.wake (num a))) :: parsePresReqsT rest
+  | "IM" :: a :: r :: t :: m :: q :: rest => .base (.ok (.sendIM (num a) (num r) (num t) (hexb m) (optHex q))) :: parsePresReqsT rest
+  | _ => []
+
 def entryStr (e : Entry) : String := s!"{e.id}/{dataStr e.name}/{toHex e.icon}/{e.flags}"
 def entriesStr (es : List Entry) : String := if es.isEmpty then "." else ",".intercalate (es.map entryStr)
 
@@ -80,6 +101,23 @@ def c13Handlers : List (String × Handler) := [
     let (_, outs) := PresWorld.init.runX qs
     let bad := (outs.flatten.filter fun p => noteOf p.1 != p.2)
     if bad.isEmpty then "agree" else "differ " ++ ";".intercalate (bad.map fun p => outStr p.1 ++ "~" ++ noteStr (noteOf p.1) ++ "~" ++ noteStr p.2)),
+  -- wave e: histories in which every departure carries the outcome of Connection.Close() (same answer format)
+  ("c13runt", fun (a : List String) =>
+    let qs := parsePresReqsT a
+    let (w, outs) := PresWorld.init.runT qs
+    s!"{qs.length} " ++ " | ".intercalate (outs.map fun os => outsStr (os.map (·.1))) ++ " || " ++ presStateStr w),
+  -- the body of Disconnect as a program: `c13teardown <close-first 0|1> <return-on-error 0|1> ok|err <n>` = n users
+  -- connected, user 1 leaves: number of user-left notices, Close calls, error logged
+  ("c13teardown", fun (a : List String) => match a with
+    | [cf, roe, cr, n] =>
+      let w := (List.range (num n)).foldl (fun (w : PresWorld) k => (w.step (.connect [k.toUInt8] [65] [] [0, 0])).1) PresWorld.init
+      match w.reg.get 1 with
+      | none => "nobody"
+      | some c =>
+        let prog := if cf == "1" then [TdCall.delete, .close, .notify] else disconnectProg
+        let s := tdRun prog c (if cr == "err" then .err else .ok) (roe == "1") w
+        s!"{s.outs.length} {s.closeCalls} {s.logged}"
+    | _ => "bad-op"),
   -- the allocator: counter, then the ids in use
   ("c13alloc", fun (a : List String) => match a with
     | ctr :: ids =>
